@@ -59,6 +59,16 @@ func goTypeFits(t reflect.Type, yt *yang.YangType) (bool, string) {
 	switch yt.Kind {
 	case yang.Yenum, yang.Yidentityref:
 		if base.Kind() == reflect.Int64 && base.Implements(goEnumType) {
+			// the generated type must carry exactly the names the leaf's type defines
+			want := sortedNameSet(lib.MemberNames(yt))
+			var have []string
+			for _, n := range lib.EnumDefs(base) {
+				have = append(have, n)
+			}
+			sort.Strings(have)
+			if len(want) > 0 && strings.Join(want, ",") != strings.Join(have, ",") {
+				return false, "enumeration/identityref leaf has an enum type with other names than its YANG type"
+			}
 			return true, ""
 		}
 		return false, "enumeration/identityref leaf is not a generated enum type"
